@@ -20,7 +20,20 @@ fn prim2(r: &mut Rng) -> Tree {
 }
 fn prim3(r: &mut Rng, inside_unit: bool) -> Tree {
     let m = if inside_unit { 0.45 } else { 0.8 };
-    match r.below(3) {
+    match r.below(5) {
+        // a ball whose squared distance is written as the expanded polynomial: on coarse cells the
+        // interval of the polynomial dips below zero and sqrt gives the NaN interval (undecided, not empty)
+        3 => { let c = [r1(r, -m, m), r1(r, -m, m), r1(r, -m, m)]; let rad = r1(r, 0.2, 0.45);
+               let (x, y, z) = Tree::axes();
+               let q = x.square() + y.square() + z.square() - x * (2.0 * c[0]) - y * (2.0 * c[1]) - z * (2.0 * c[2]) + (c[0] * c[0] + c[1] * c[1] + c[2] * c[2]);
+               q.sqrt() - rad }
+        // the exact box distance length(max(q, 0)) + min(max(q.x, q.y, q.z), 0): the gradient of sqrt at 0 is NaN on the faces
+        4 => { let c = [r1(r, -0.3, 0.3), r1(r, -0.3, 0.3), r1(r, -0.3, 0.3)]; let hsz = [r1(r, 0.15, 0.4), r1(r, 0.15, 0.4), r1(r, 0.15, 0.4)];
+               let (x, y, z) = Tree::axes();
+               let q = [(x - c[0]).abs() - hsz[0], (y - c[1]).abs() - hsz[1], (z - c[2]).abs() - hsz[2]];
+               let outside = (q[0].max(0.0).square() + q[1].max(0.0).square() + q[2].max(0.0).square()).sqrt();
+               let inside = q[0].max(q[1].clone()).max(q[2].clone()).min(0.0);
+               outside + inside + 0.02 }
         0 => Sphere { center: Vec3::new(r1(r, -m, m), r1(r, -m, m), r1(r, -m, m)), radius: r1(r, 0.15, 0.45) }.into(),
         1 => { let (x, y, z) = (r1(r, -m, 0.1), r1(r, -m, 0.1), r1(r, -m, 0.1));
                fidget_shapes::Box { lower: Vec3::new(x, y, z), upper: Vec3::new(x + r1(r, 0.15, 0.45), y + r1(r, 0.15, 0.45), z + r1(r, 0.15, 0.45)) }.into() }
